@@ -591,6 +591,25 @@ def step (s : State) (toks : List String) : State × String :=
           (o.1, if o.2 = "-" then acc.2 else acc.2 ++ [o.2])) (s, [])
         (r.1, if r.2.isEmpty then "-" else ";".intercalate r.2)
     | _, _, _ => (s, "bad-op")
+  -- `tcpb <k> <rounds> <n>`: over real connections, every child sends per round one message of aggregated type a, one
+  -- of aggregated type b (byte strings of n bytes) and a barrier; the reply lists the batches in delivery order with the
+  -- byte every payload holds — the messages of a batch are the messages as sent, whatever arrived behind them
+  | ["tcpb", k, rounds, n] =>
+    match k.toNat?, rounds.toNat?, n.toNat? with
+    | some k, some rounds, some _ =>
+      if k < 1 ∨ k > 4 ∨ rounds < 1 then (s, "bad-op") else
+      let cfg : Cfg := { isRoot := true, nChildren := k, agg := fun t => t == 10 || t == 11 }
+      let byteOf (ty c r : Nat) : Nat := (ty * 101 + c * 17 + r * 31 + 7) % 251
+      let msgs : List Msg := (List.range rounds).flatMap fun r => (List.range k).flatMap fun c =>
+        [{ ty := 10, src := some c, val := r * 1000 + byteOf 0 c r }, { ty := 11, src := some c, val := r * 1000 + byteOf 1 c r },
+         { ty := 12, src := some c, val := 0 }]
+      let bs := (run cfg emptyQ msgs).2.filter fun b => b.all fun m => m.ty != 12
+      (s, ";".intercalate (bs.map fun b =>
+        match b with
+        | [] => ""
+        | m :: _ => (if m.ty = 10 then "a" else "b") ++ toString (m.val / 1000) ++ ":" ++
+            ",".intercalate (b.map fun x => (match x.src with | some c => toString c | none => "p") ++ "=" ++ toString (x.val % 1000))))
+    | _, _, _ => (s, "bad-op")
   | ["recv", id] =>
     match id.toNat? with
     | some id =>
